@@ -351,7 +351,7 @@ def idealValue : Strat → V → Option V
 def idealStmt (rs ws : SideSem) (N : List String) (w : WSt) (c : Claim) : WSt :=
   match resolveField rs.tree c.rd, resolveField ws.tree c.wr with
   | some rl, some wl =>
-    if (hops rs.ptrs rl.path).all (fun h => !N.contains (joinPath h)) then
+    if (hops rs.ptrs rl.path).all (nonNil N) then
       match idealValue c.strat (readLeaf N rl) with
       | some v => { w with vals := w.vals ++ [(joinPath wl.path, v)] }
       | none => w
